@@ -670,7 +670,12 @@ class Audit:
             self.used_justifications.add(s.key)
             if not hasattr(self, "descs"):
                 self.descs = {}
+                self.descs_inl = {}
             self.descs[s.key] = self._describe(B, cx, s)
+            if getattr(self, "record_inlined", False):
+                inl = self._inlined(s.fn)
+                if inl is not None:
+                    self.descs_inl[s.key] = self._describe(inl[2], Ctx(inl[2], self.F), s)
             missing = self._requires(s.fn, j.get("requires", []))
             if missing:
                 s.verdict = "open"
@@ -695,7 +700,8 @@ class Audit:
         wn = _norm_what(s.what)
         for k2, j2 in self.justified.items():
             kp = k2.split(" | ")
-            if j2.get("desc") and len(kp) == 3 and kp[0] == fn and _norm_what(kp[1]) == wn and _norm_desc(j2["desc"]) == _norm_desc(desc):
+            if j2.get("desc") and len(kp) == 3 and kp[0] == fn and _norm_what(kp[1]) == wn and \
+                    _norm_desc(desc) in (_norm_desc(j2["desc"]), _norm_desc(j2.get("desc_inl") or j2["desc"])):
                 if self._requires(fn, j2.get("requires", [])):
                     continue
                 self.used_justifications.add(k2)
@@ -1064,6 +1070,10 @@ def _simp(s):
     s = tuple(_simp(x) if isinstance(x, tuple) else x for x in s)
     if s[0] in ("ref", "deref") and isinstance(s[1], tuple) and s[1] and s[1][0] == ("deref" if s[0] == "ref" else "ref"):
         return s[1][1]
+    if s[0] == "call" and isinstance(s[1], str) and s[1].endswith("::clone") and len(s[2]) == 1 and s[2][0][0] == "ref":
+        return s[2][0][1]   # a copy reads like the value it copies
+    if s[0] == "field" and isinstance(s[1], tuple) and s[1] and s[1][0] == "agg" and len(s[1]) > 3 and s[2] in s[1][3] and len(s[1][3]) == len(s[1][2]):
+        return s[1][2][s[1][3].index(s[2])]   # a field of a value built in place is the value it was built from
     return s
 
 
